@@ -997,7 +997,7 @@ func runHeaderReadCancellable(c *Ctx) {
 func init() {
 	Register(&Rule{
 		Name:  "R-UNCONFIRMED-NOT-CLAIMED",
-		Props: []string{"C06", "C05"},
+		Props: []string{"C06", "C05", "C04", "C01"},
 		Min:   3,
 		Doc: "the chunk handed to the sender for comparison is not claimed on disk until its verdict is known (F74): (report) in the receiver's resume report every path from the assignment of LastVerifiedHash to the successful return passes Sidecar.MarkUnconfirmed on the chunk that was reported; " +
 			"(flush) Sidecar.Flush clears that chunk's bit in the copy of the bitmap it writes, under the reservation flag, before the bitmap's bytes go into the file image; (release) Sidecar.Confirm is called only where the file was finalised successfully - " +
